@@ -158,8 +158,12 @@ Section Link.
     unfold Proto2.rec_tx, fail_init. destruct (txs w !! i) as [T|] eqn:HT; [|intros []].
     pose proof (j_tx _ HJ _ _ HT) as Hwf.
     destruct (t_apply T) as [a|] eqn:Ea.
-    { destruct a; try (cbn; intros []; fail). intros H. apply phase_scan_puttx in H. destruct H as (-> & [(p & ->)| ->]);
-        (split; [reflexivity|]); exists T; (split; [reflexivity|]); same_upd. }
+    { destruct a; try (cbn; intros []; fail).
+      destruct (scan_props w i (default [] (t_props T)) _) as [[u|[t1 p1]]|] eqn:Hscan.
+      - cbn. intros [].
+      - cbn. intros [H|[]]. discriminate H.
+      - intros H. apply phase_scan_puttx in H. destruct H as (-> & [(p & ->)| ->]);
+          (split; [reflexivity|]); exists T; (split; [reflexivity|]); same_upd. }
     destruct (t_abort T) as [ab|] eqn:Eb.
     { destruct ab; try (cbn; intros []; fail). intros H. apply phase_scan_puttx in H. destruct H as (-> & [(p & ->)| ->]);
         (split; [reflexivity|]); exists T; (split; [reflexivity|]); [same_upd|].
